@@ -286,6 +286,12 @@ func (w *World) renderCall(c *ssa.CallCommon, depth int, seen map[ssa.Value]bool
 	} else {
 		as = []string{"…"}
 	}
+	// one spelling for "some element satisfies the predicate": lo.ContainsBy / lo.SomeBy are the found flag of lo.Find
+	for _, alias := range [...]string{"lo.ContainsBy[", "lo.SomeBy["} {
+		if strings.HasPrefix(name, alias) {
+			return "lo.Find[" + strings.TrimPrefix(name, alias) + "(" + strings.Join(as, ", ") + ")#1"
+		}
+	}
 	return name + "(" + strings.Join(as, ", ") + ")"
 }
 
